@@ -115,9 +115,12 @@ claim("C01",
       "none), C01_alternation (responses never outnumber requests, at most one outstanding; QuitGame is answered by closing), "
       "C01_queue_bound, C01_quiescent (when nothing can run, every awaited answer is held by a handler parked at one of the three "
       "barriers with its wait unreleased), C01_parked_have_agents; per-run obligation C01_dispatch_total (every action type incl. "
-      "BlockIP is routed to a replying handler; default and parse-failure arms reply). Partial: that a parked barrier is *unmet* and "
-      "the termination measure are not proved; they are decided by the monitor (barrier conditions evaluated on the implementation's "
-      "tables at every quiescent point).", C_NOTE, C_TECH, "DESIGN.md section 7, C01")
+      "BlockIP is routed to a replying handler; default and parse-failure arms reply). C01_idle_unmet (barrier invariant K, Proofs/CoordBarrier.v: in every reachable idle state the barrier "
+      "holding an unreleased wait is genuinely unmet - somebody has not finished / has not asked / the start event is clear - so "
+      "nothing waits for the server). Partial: the termination measure (every enabled task step sequence reaches an idle state) and "
+      "'start event clear => fewer than required players' (false for an unconstrained scheduler; true under asyncio's FIFO start "
+      "of handler tasks) are decided by the monitor (barrier conditions evaluated on the implementation's tables at every "
+      "quiescent point).", C_NOTE, C_TECH, "DESIGN.md section 7, C01")
 claim("C04",
       "Rocq theorems (decision rules of the coordinator model, all states): C04_status (Success if goal, else Fail if detected, else "
       "TimeoutReached at the step limit, else unchanged), C04_step (counters, end rule incl. 'no attacker playing any more', final "
@@ -137,13 +140,15 @@ claim("C06",
       "Rocq theorems: C06_end (handlers waiting for the end are released only by the reward task, which does nothing unless every "
       "agent in the game has finished), C06_end_all (then all are released in one step: no lost wake-up), C06_quiescent, C06_nonfinal "
       "(non-final observations are answered in the segment that executed the action), C06_parked_final (in every reachable state a "
-      "handler held at the end barrier belongs to a finished agent and reports exactly the stored view). Join barrier: decided by the trace-following "
-      "correspondence and the quiescence monitor (partial).", C_NOTE, C_TECH, "DESIGN.md section 7, C06")
+      "handler held at the end barrier belongs to a finished agent and reports exactly the stored view). C06_invariant / C06_unmet (no lost wake-up for all three barriers in every "
+      "reachable state), C06_start (start event set only while at least the required number of players is in the game). Partial: "
+      "'exactly when enough players joined' for the start barrier under reordering of a departure and a join is decided by the "
+      "trace-following correspondence and the quiescence monitor.", C_NOTE, C_TECH, "DESIGN.md section 7, C06")
 claim("C07",
       "Rocq theorems: C07_collective (the reset task does nothing unless the game is non-empty and every agent has asked), "
       "C07_voluntary (an agent that has not asked keeps its whole record across any run of the reset task), C07_fresh, C07_done; across labels: C07_request_stays (a registered request stays registered until the reset task runs or "
       "the agent leaves), C07_request_handler (in every reachable state a registered request has its handler waiting for the "
-      "reset), C07_cleared_by_reset. "
+      "reset), C07_unmet (an idle RESET_DONE wait coexists with an agent that has not asked), C07_cleared_by_reset. "
       "Monitor: reset steps and foreign changes of steps/view/end flag in every task step.", C_NOTE, C_TECH, "DESIGN.md section 7, C07")
 claim("C09",
       "Rocq theorems: C09_garbage / C09_reject (every bad request - garbage, second join, join without agent_info or with an unknown "
